@@ -20,6 +20,7 @@ CONFIGS = {
     "avx2": ("release", HOOK + " -C target-feature=+avx2", "", "cx-exec"),
     "fe32": ("release", HOOK, "force32", "cx-exec"),
     "ctvictim": ("release", "", "", "cx-ctvictim"),
+    "ctvictim32": ("release", "", "force32", "cx-ctvictim"),
 }
 
 
@@ -58,7 +59,7 @@ def build_all(names, parallel=True):
         for n in names:
             out[n] = build(n, quiet=False)
         return out
-    with ThreadPoolExecutor(max_workers=min(len(names), 4)) as ex:
+    with ThreadPoolExecutor(max_workers=min(len(names), 8)) as ex:
         futs = {n: ex.submit(build, n, False) for n in names}
         for n, f in futs.items():
             out[n] = f.result()
